@@ -1014,7 +1014,7 @@ func runC15(c *runCtx) error {
 	// mixed draw decorrelates consecutive seeds
 	r := newRng(newRng(c.seed).next())
 	e := newEmitter(c.out, "C15", "From Coq Require Import List String.\nFrom KV Require Import Model.Token Model.Ast Model.ExprParser Corr.C15.\nImport ListNotations.\nOpen Scope string_scope.\n", 300)
-	e.m.Rule = "one case = one query text run through Lexer.Split and Parser.Parse, its rendering, the rendering's tokens and its re-parse; flat: every operator sequence over 10 spellings up to the length bound; raw: random untyped trees (depth<=4) written with minimal/random/full parentheses, random case and spacing, and single-edit corruptions; accepted: typed statements the library accepts; non-trivial = at least one operator (flat: at least two); distinct = distinct Gallina case terms"
+	e.m.Rule = "one case = one query text run through Lexer.Split and Parser.Parse, its rendering, the rendering's tokens and its re-parse; flat: every operator sequence over 10 spellings up to the length bound; raw: random untyped trees (depth<=4) written with minimal/random/full parentheses, random case and spacing, and single-edit corruptions; accepted: typed statements the library accepts; stmt: whole statements of every kind (SELECT lists / AS / *, WHERE-only, ORDER BY / GROUP BY / LIMIT tails, PUT, REMOVE, DELETE, trailing semicolons) from a typed and an untyped grammar plus single-edit corruptions, accept / reject, error offset and the accepted statement tree compared with Model/StmtParser.v; non-trivial = at least one operator (flat: at least two); distinct = distinct Gallina case terms"
 	h := &c15{e: e, c: c}
 	h.precTable()
 
@@ -1104,6 +1104,7 @@ func runC15(c *runCtx) error {
 		q := "where " + g.join(g.child(t, false, false))
 		h.emit(1, q, t, c15Styles[g.style], "untyped operand inside a typed frame")
 	}
+	c15StmtStream(h)
 	e.m.Exhaustive = true
 	if c.thorough() {
 		e.m.Notes = append(e.m.Notes, fmt.Sprintf("flat operator sequences exhaustive up to length %d over %v", flatLen, c15FlatOps))
@@ -1111,4 +1112,589 @@ func runC15(c *runCtx) error {
 		e.m.Notes = append(e.m.Notes, fmt.Sprintf("flat operator sequences exhaustive up to length 3 over %v and of length 4 over %v", c15FlatOps, c15FlatOps7))
 	}
 	return e.flush()
+}
+
+// ------------------------------------------------------------------ whole statements (kind 4)
+//
+// Statement-level parser twin (Model/StmtParser.v) against Parser.Parse: SELECT with field
+// lists / AS / `*`, WHERE-only, ORDER BY / GROUP BY / LIMIT tails, PUT, REMOVE, DELETE, trailing
+// semicolons; valid statements from a grammar (typed, so that many are accepted and the whole
+// statement tree is compared), untyped ones (the parser is observed, the checker refuses), and
+// single-edit corruptions.  Compared: accept / reject, the error offset, and for accepted
+// statements the tree (fields, AS names, where, order names + directions, group-by names,
+// limit start / count, put pairs, remove keys, every Pos).
+
+type w1Replay struct {
+	Kind    string `json:"kind"`
+	Query   string `json:"query"`
+	Outcome string `json:"outcome"`
+	ErrPos  int    `json:"error_pos,omitempty"`
+	Err     string `json:"error,omitempty"`
+	Note    string `json:"note,omitempty"`
+}
+
+func w1w(s string) c15lexeme { return c15lexeme{s, 'w'} }
+
+func w1coqLimit(l *kvql.LimitStmt) string {
+	if l == nil {
+		return "None"
+	}
+	return fmt.Sprintf("(Some (GLimit %d %s %s))", natPos(l.Pos), coqStr(fmt.Sprint(l.Start)), coqStr(fmt.Sprint(l.Count)))
+}
+
+func w1coqExprs(xs []kvql.Expression) (string, bool) {
+	p := make([]string, len(xs))
+	ok := true
+	for i, x := range xs {
+		var o bool
+		p[i], o = coqExpr(x)
+		ok = ok && o
+	}
+	return coqList(p), ok
+}
+
+// w1coqStmt prints an accepted statement as a Corr/C15.gostmt term.
+func w1coqStmt(st kvql.Statement) (string, bool) {
+	switch s := st.(type) {
+	case *kvql.SelectStmt:
+		if s == nil || s.Where == nil || s.Where.Expr == nil {
+			return "", false
+		}
+		fs, ok := w1coqExprs(s.Fields)
+		w, ok2 := coqExpr(s.Where.Expr)
+		order := "None"
+		if s.Order != nil {
+			it := make([]string, len(s.Order.Orders))
+			for i, o := range s.Order.Orders {
+				it[i] = fmt.Sprintf("(%s, %s)", coqStr(o.Name), coqBool(o.Order == kvql.DESC))
+			}
+			order = fmt.Sprintf("(Some (%d, %s))", natPos(s.Order.Pos), coqList(it))
+		}
+		group := "None"
+		if s.GroupBy != nil {
+			it := make([]string, len(s.GroupBy.Fields))
+			for i, f := range s.GroupBy.Fields {
+				it[i] = coqStr(f.Name)
+			}
+			group = fmt.Sprintf("(Some (%d, %s))", natPos(s.GroupBy.Pos), coqList(it))
+		}
+		return fmt.Sprintf("(GSelect %d %s %s %s %d %s %s %s %s)", natPos(s.Pos), coqBool(s.AllFields), fs,
+			coqStrList(s.FieldNames), natPos(s.Where.Pos), w, order, group, w1coqLimit(s.Limit)), ok && ok2
+	case *kvql.PutStmt:
+		if s == nil {
+			return "", false
+		}
+		ps := make([]string, len(s.KVPairs))
+		ok := true
+		for i, kv := range s.KVPairs {
+			k, ok1 := coqExpr(kv.Key)
+			v, ok2 := coqExpr(kv.Value)
+			ps[i] = "(" + k + ", " + v + ")"
+			ok = ok && ok1 && ok2
+		}
+		return fmt.Sprintf("(GPut %d %s)", natPos(s.Pos), coqList(ps)), ok
+	case *kvql.RemoveStmt:
+		if s == nil {
+			return "", false
+		}
+		ks, ok := w1coqExprs(s.Keys)
+		return fmt.Sprintf("(GRemove %d %s)", natPos(s.Pos), ks), ok
+	case *kvql.DeleteStmt:
+		if s == nil || s.Where == nil || s.Where.Expr == nil {
+			return "", false
+		}
+		w, ok := coqExpr(s.Where.Expr)
+		return fmt.Sprintf("(GDelete %d %d %s %s)", natPos(s.Pos), natPos(s.Where.Pos), w, w1coqLimit(s.Limit)), ok
+	}
+	return "", false
+}
+
+type w1Out struct {
+	st    kvql.Statement
+	err   error
+	panic string
+}
+
+func w1Parse(q string) (res w1Out) {
+	defer func() {
+		if r := recover(); r != nil {
+			res = w1Out{panic: fmt.Sprint(r)}
+		}
+	}()
+	st, err := kvql.NewParser(q).Parse()
+	return w1Out{st: st, err: err}
+}
+
+func (h *c15) w1Emit(q string, kind string, note string) {
+	e := h.e
+	out := w1Parse(q)
+	rp := w1Replay{Kind: "stmt:" + kind, Query: q, Note: note}
+	toks := kvql.NewLexer(q).Split()
+	if out.panic != "" {
+		rp.Outcome, rp.Err = "panic", out.panic
+		idx := e.add(fmt.Sprintf("Case 4 true %s ONone \"\" [] ONone []", coqTokens(toks)), rp, false)
+		e.fail(idx, "the parser panicked: "+out.panic, "C15/panic", rp)
+		return
+	}
+	obs := ""
+	if out.err == nil {
+		t, ok := w1coqStmt(out.st)
+		if !ok {
+			e.m.OutOfModel++
+			e.count("out_of_model:stmt-tree")
+			return
+		}
+		obs = "(OStmt " + t + ")"
+		rp.Outcome = "accepted"
+	} else {
+		rp.Err = out.err.Error()
+		pos := errPos(out.err)
+		switch {
+		case pos == -1:
+			obs = "(OErr None)"
+			rp.Outcome = "rejected_at_eof"
+		case pos >= 0:
+			obs = fmt.Sprintf("(OErr (Some %d))", pos)
+			rp.Outcome = "rejected_at_offset"
+		default:
+			// an error without a position (none is known on these inputs)
+			e.m.OutOfModel++
+			e.count("out_of_model:stmt-error-without-position")
+			return
+		}
+		rp.ErrPos = pos
+	}
+	e.add(fmt.Sprintf("Case 4 true %s %s \"\" [] ONone []", coqTokens(toks), obs), rp, true)
+	e.count("kind=stmt")
+	e.count("stmt=" + kind)
+	e.count("stmt_outcome=" + rp.Outcome)
+	if note != "" {
+		e.count("stmt_" + note)
+	}
+}
+
+// ---- statement grammar
+
+type w1gen struct {
+	g *c15gen
+	r *rng
+}
+
+// expression of a type ("s", "n", "b") or untyped ("u"), as lexemes
+func (w *w1gen) ex(ty string, d int) []c15lexeme {
+	g := w.g
+	var t *c15gx
+	switch ty {
+	case "s":
+		t = g.tstr(d)
+	case "n":
+		t = g.tnum(d)
+	case "b":
+		t = g.tbool(d)
+	default:
+		t = g.expr(d)
+	}
+	return g.child(t, false, false)
+}
+
+// constant expressions for PUT / REMOVE (no key / value keyword)
+func (w *w1gen) konst(d int) *c15gx {
+	r := w.r
+	if d <= 0 {
+		if r.chance(1, 4) {
+			return c15num(pick(r, []string{"1", "2", "42"}))
+		}
+		return c15lit(pick(r, []string{"a", "k1", "x y", "z", ""}))
+	}
+	switch r.intn(5) {
+	case 0:
+		return c15call("upper", w.konst(d-1))
+	case 1:
+		return c15bin("+", c15lit(pick(r, []string{"p", "q"})), w.konst(d-1))
+	case 2:
+		return c15call("str", c15num(pick(r, []string{"1", "7"})))
+	case 3:
+		return c15bin(pick(r, []string{"+", "*", "-"}), c15num("2"), c15num(pick(r, []string{"3", "10"})))
+	}
+	return w.konst(0)
+}
+
+func (w *w1gen) limit() []c15lexeme {
+	r := w.r
+	n := []string{"0", "1", "5", "10", "007", "100", "9223372036854775807", "9223372036854775808", "99999999999999999999"}
+	out := []c15lexeme{w.g.word("limit")}
+	switch r.intn(12) {
+	case 0, 1, 2, 3, 4:
+		out = append(out, w1w(pick(r, n)))
+	case 5, 6, 7, 8:
+		out = append(out, w1w(pick(r, n)), c15sym(","), w1w(pick(r, n)))
+	case 9:
+		out = append(out, w1w(pick(r, n)), w1w(pick(r, n))) // no separator: still two numbers
+	case 10:
+		out = append(out, c15sym(","), w1w(pick(r, n)))
+	default:
+		out = append(out, w1w(pick(r, n)), c15sym(","), w1w(pick(r, n)), c15sym(","), w1w(pick(r, n)))
+	}
+	return out
+}
+
+func w1commaJoin(items [][]c15lexeme) []c15lexeme {
+	var out []c15lexeme
+	for i, it := range items {
+		if i > 0 {
+			out = append(out, c15sym(","))
+		}
+		out = append(out, it...)
+	}
+	return out
+}
+
+// selectStmt: typed = fields / filter / tails well typed (most are accepted)
+func (w *w1gen) selectStmt(typed bool) ([]c15lexeme, string) {
+	g, r := w.g, w.r
+	g.aliases = nil
+	var out []c15lexeme
+	al := map[string][]string{}
+	type fld struct {
+		lex   []c15lexeme
+		alias string
+		ty    string
+	}
+	var flds []fld
+	star := false
+	grouped := false
+	form := r.intn(10)
+	switch {
+	case form == 0: // starts at WHERE
+	case form <= 2:
+		star = true
+		out = append(out, g.word("select"), c15sym("*"))
+	case form <= 4 && typed:
+		// aggregate query: group keys + aggregates
+		grouped = true
+		out = append(out, g.word("select"))
+		var items [][]c15lexeme
+		for j, k := 0, 1+r.intn(2); j < k; j++ {
+			f := fld{lex: w.ex("s", r.intn(2)), ty: "s"}
+			it := append([]c15lexeme{}, f.lex...)
+			if r.chance(2, 3) {
+				f.alias = fmt.Sprintf("g%d", j)
+				it = append(it, g.word("as"), w1w(f.alias))
+			}
+			flds = append(flds, f)
+			items = append(items, it)
+		}
+		for j, k := 0, 1+r.intn(2); j < k; j++ {
+			var a *c15gx
+			switch r.intn(4) {
+			case 0:
+				a = c15call("count", c15num("1"))
+			case 1:
+				a = c15call("sum", c15call("int", &c15gx{k: "value", s: "value"}))
+			case 2:
+				a = c15call("max", &c15gx{k: "key", s: "key"})
+			default:
+				a = c15call("avg", c15call("strlen", &c15gx{k: "value", s: "value"}))
+			}
+			f := fld{lex: g.child(a, false, false), ty: "a"}
+			it := append([]c15lexeme{}, f.lex...)
+			if r.chance(1, 2) {
+				f.alias = fmt.Sprintf("a%d", j)
+				it = append(it, g.word("as"), w1w(f.alias))
+			}
+			flds = append(flds, f)
+			items = append(items, it)
+		}
+		out = append(out, w1commaJoin(items)...)
+	default:
+		out = append(out, g.word("select"))
+		var items [][]c15lexeme
+		for j, k := 0, 1+r.intn(3); j < k; j++ {
+			ty := pick(r, []string{"s", "s", "n", "b"})
+			if !typed && r.chance(1, 2) {
+				ty = "u"
+			}
+			f := fld{lex: w.ex(ty, r.intn(3)), ty: ty}
+			it := append([]c15lexeme{}, f.lex...)
+			if r.chance(1, 2) {
+				if r.chance(1, 6) {
+					q := pick(r, []string{"my f", "select", "A", "1"})
+					f.alias = q
+					it = append(it, g.word("as"), c15lexeme{"`" + q + "`", 'q'})
+				} else {
+					f.alias = fmt.Sprintf("%s%d", ty, j)
+					it = append(it, g.word("as"), w1w(f.alias))
+					al[ty] = append(al[ty], f.alias)
+				}
+			}
+			flds = append(flds, f)
+			items = append(items, it)
+		}
+		out = append(out, w1commaJoin(items)...)
+		if r.chance(1, 12) {
+			out = append(out, c15sym(",")) // trailing comma is tolerated
+		}
+	}
+	// filter
+	out = append(out, g.word("where"))
+	if !grouped {
+		g.aliases = al
+	}
+	if typed {
+		out = append(out, w.ex("b", 1+r.intn(2))...)
+	} else {
+		out = append(out, w.ex("u", 1+r.intn(3))...)
+	}
+	g.aliases = nil
+	// tails
+	ref := func(f fld) []c15lexeme {
+		if f.alias != "" && !strings.ContainsAny(f.alias, " ") && f.alias != "select" && f.alias != "A" && f.alias != "1" && r.chance(3, 4) {
+			return []c15lexeme{w1w(f.alias)}
+		}
+		if f.alias != "" {
+			return []c15lexeme{{"`" + f.alias + "`", 'q'}}
+		}
+		return f.lex // the field expression itself: its String() is the field's name
+	}
+	var tails [][]c15lexeme
+	if grouped || (!typed && r.chance(1, 4)) {
+		var items [][]c15lexeme
+		for _, f := range flds {
+			if f.ty != "a" && (r.chance(5, 6) || len(items) == 0) {
+				it := ref(f)
+				if r.chance(1, 10) { // a direction belongs to ORDER BY only: refused
+					it = append(append([]c15lexeme{}, it...), g.word(pick(r, []string{"asc", "desc"})))
+				}
+				items = append(items, it)
+			}
+		}
+		if len(items) == 0 {
+			items = append(items, []c15lexeme{g.word("key")})
+		}
+		t := []c15lexeme{g.word("group"), g.word("by")}
+		t = append(t, w1commaJoin(items)...)
+		tails = append(tails, t)
+	}
+	if r.chance(1, 2) {
+		var items [][]c15lexeme
+		cand := flds
+		if star {
+			cand = []fld{{lex: []c15lexeme{g.word("key")}}, {lex: []c15lexeme{g.word("value")}}}
+		}
+		for _, f := range cand {
+			if (f.ty == "u" || f.ty == "a" || f.ty == "s" || f.ty == "n" || f.ty == "b" || f.ty == "") && r.chance(2, 3) {
+				it := ref(f)
+				switch r.intn(3) {
+				case 0:
+					it = append(append([]c15lexeme{}, it...), g.word("asc"))
+				case 1:
+					it = append(append([]c15lexeme{}, it...), g.word("desc"))
+				}
+				if r.chance(1, 14) { // clause words of other clauses after an item: refused
+					it = append(append([]c15lexeme{}, it...), pick(r, []c15lexeme{g.word("as"), g.word("asc"), g.word("by"), w1w("x")}))
+				}
+				items = append(items, it)
+			}
+		}
+		if len(items) == 0 && !typed {
+			items = append(items, w.ex("u", 1))
+		}
+		if len(items) > 0 {
+			t := []c15lexeme{g.word("order"), g.word("by")}
+			t = append(t, w1commaJoin(items)...)
+			if r.chance(1, 10) {
+				t = append(t, c15sym(","))
+			}
+			tails = append(tails, t)
+		}
+	}
+	if len(tails) == 2 && r.chance(1, 2) {
+		tails[0], tails[1] = tails[1], tails[0]
+	}
+	if r.chance(1, 2) {
+		tails = append(tails, w.limit())
+		if r.chance(1, 12) && len(tails) > 1 { // LIMIT not last: refused
+			tails[0], tails[len(tails)-1] = tails[len(tails)-1], tails[0]
+		}
+	}
+	for _, t := range tails {
+		out = append(out, t...)
+	}
+	return out, "select"
+}
+
+func (w *w1gen) putStmt(typed bool) ([]c15lexeme, string) {
+	g, r := w.g, w.r
+	out := []c15lexeme{g.word("put")}
+	n := 1 + r.intn(3)
+	if r.chance(1, 15) {
+		n = 0
+	}
+	for i := 0; i < n; i++ {
+		if i > 0 {
+			out = append(out, c15sym(","))
+		}
+		var k, v []c15lexeme
+		if typed {
+			k = g.child(w.konst(r.intn(3)), false, false)
+			if r.chance(1, 3) {
+				v = g.child(c15bin("+", &c15gx{k: "key", s: "key"}, w.konst(1)), false, false)
+			} else {
+				v = g.child(w.konst(r.intn(3)), false, false)
+			}
+		} else {
+			k, v = w.ex("u", r.intn(3)), w.ex("u", r.intn(3))
+		}
+		out = append(out, c15sym("("))
+		out = append(out, k...)
+		out = append(out, c15sym(","))
+		out = append(out, v...)
+		out = append(out, c15sym(")"))
+	}
+	if n > 0 && r.chance(1, 12) {
+		out = append(out, c15sym(","))
+	}
+	return out, "put"
+}
+
+func (w *w1gen) removeStmt(typed bool) ([]c15lexeme, string) {
+	g, r := w.g, w.r
+	out := []c15lexeme{g.word("remove")}
+	n := 1 + r.intn(3)
+	if r.chance(1, 15) {
+		n = 0
+	}
+	for i := 0; i < n; i++ {
+		if i > 0 {
+			out = append(out, c15sym(","))
+		}
+		if typed {
+			out = append(out, g.child(w.konst(r.intn(3)), false, false)...)
+		} else {
+			out = append(out, w.ex("u", r.intn(3))...)
+		}
+	}
+	if n > 0 && r.chance(1, 12) {
+		out = append(out, c15sym(","))
+	}
+	return out, "remove"
+}
+
+func (w *w1gen) deleteStmt(typed bool) ([]c15lexeme, string) {
+	g, r := w.g, w.r
+	out := []c15lexeme{g.word("delete"), g.word("where")}
+	if typed {
+		out = append(out, w.ex("b", 1+r.intn(2))...)
+	} else {
+		out = append(out, w.ex("u", 1+r.intn(3))...)
+	}
+	if r.chance(1, 2) {
+		out = append(out, w.limit()...)
+	}
+	return out, "delete"
+}
+
+func (w *w1gen) stmt(typed bool) ([]c15lexeme, string) {
+	var ls []c15lexeme
+	var kind string
+	switch c := w.r.intn(10); {
+	case c < 6:
+		ls, kind = w.selectStmt(typed)
+	case c < 7:
+		ls, kind = w.putStmt(typed)
+	case c < 8:
+		ls, kind = w.removeStmt(typed)
+	default:
+		ls, kind = w.deleteStmt(typed)
+	}
+	for w.r.chance(1, 8) {
+		ls = append(ls, c15sym(";"))
+	}
+	return ls, kind
+}
+
+var w1Junk = []c15lexeme{c15sym(")"), c15sym("("), c15sym(","), c15sym(";"), c15sym("*"), c15sym("]"), c15sym("["),
+	w1w("limit"), w1w("order"), w1w("group"), w1w("by"), w1w("asc"), w1w("desc"), w1w("as"), w1w("where"),
+	w1w("select"), w1w("put"), w1w("remove"), w1w("delete"), w1w("1"), w1w("2"), w1w("x"), w1w("key"),
+	{"'s'", 'q'}, w1w("and"), c15sym("="), w1w("in"), w1w("1.5")}
+
+func (w *w1gen) corrupt(ls []c15lexeme) []c15lexeme {
+	out := append([]c15lexeme{}, ls...)
+	if len(out) == 0 {
+		return out
+	}
+	r := w.r
+	i := r.intn(len(out))
+	switch r.intn(6) {
+	case 0: // delete
+		out = append(out[:i], out[i+1:]...)
+	case 1: // duplicate
+		out = append(out[:i+1], out[i:]...)
+	case 2: // swap
+		if i+1 < len(out) {
+			out[i], out[i+1] = out[i+1], out[i]
+		}
+	case 3, 4: // insert
+		out = append(out[:i], append([]c15lexeme{pick(r, w1Junk)}, out[i:]...)...)
+	case 5: // truncate
+		out = out[:i]
+	}
+	return out
+}
+
+func c15StmtStream(h *c15) {
+	c := h.c
+	r := newRng(newRng(c.seed ^ 0x77315354).next())
+	w := &w1gen{g: &c15gen{r: r}, r: r}
+	nTyped, nUntyped, nBad := 900, 500, 1400
+	if c.thorough() {
+		nTyped, nUntyped, nBad = 6000, 3000, 9000
+	}
+	if c.search {
+		nTyped, nUntyped, nBad = nTyped*4, nUntyped*4, nBad*4
+	}
+	// fixed small statements first: the first failing case is a small one
+	for _, q := range []string{"", ";", ";;", "where", "select", "select *", "select * where", "where key = 'a'", "where key = 'a';",
+		"where key = 'a';;", "select * where key = 'a' limit 1", "select * where key = 'a' limit 1, 2",
+		"select key, value where key ^= 'a' order by key desc", "select key as k where key ^= 'a' order by k",
+		"select key, count(1) where key ^= 'a' group by key", "put", "put ('a', 'b')", "put ('a', 'b'), ('c', 'd')", "remove",
+		"remove 'a'", "remove 'a', 'b'", "delete", "delete where", "delete where key = 'a'", "delete where key = 'a' limit 3",
+		"delete where key = 'a' limit 3 4 5", "limit 1", "select * where key = 'a' limit", "select * where key = 'a' limit ,",
+		"select * where key = 'a' order by", "select * where key = 'a' group by", "select * where key = 'a' order key",
+		"select key as where key = 'a'", "select key as 1 where key = 'a'", "select key as k v where key = 'a'",
+		"select a, * where key = 'a'", "select *, a where key = 'a'", "select where key = 'a'", "key = 'a'",
+		"select key where key = 'a' limit 1 order by key", "select key where key = 'a' order by key order by key",
+		"select key where key = 'a' limit 1 limit 2", "select key where key = 'a' group by key group by key",
+		// semantic tests that parser.go runs in the middle of parsing, followed by a syntax error
+		"select upper(u) as u where key = 'a' order", "select b + 1 as a, a + 1 as b where key = 'a' limit ,",
+		"select key as k where key = 'a' order by zz limit ,", "select key as k where key = 'a' order by zz, k desc limit",
+		"select json(value) as j where key = 'a' order by j limit ,", "select key where key = 'a' group by zz order",
+		"select key, count(1) as c where key = 'a' group by c limit ,", "select key, value where key = 'a' group by key, value + 1 limit ,",
+		"select key, value + 1 as v where key = 'a' group by key, v order by", "where key = 'a' order by key", "where key = 'a' group by key limit ,",
+		"select * where key = 'a' order by key, value desc limit 2, 3;", "select * where key = 'a' order by KEY asc , limit 1",
+		"select key as a, a + 'x' as b where b = 'y' order by b desc", "select key k where key = 'a'",
+		"put ('a', 'b') ('c', 'd')", "put ('a' 'b')", "put ('a', 'b'", "put (", "put ('a', 'b'),", "put ('a', 'b');", "put ('a', value)",
+		"remove 'a' 'b'", "remove 'a',", "remove key", "remove ;", "delete where key = 'a' limit 1, 2;", "delete where key = 'a' order by key",
+		"delete where key = 'a' limit 1 x", "delete from", "delete where 1", ";where key = 'a'", "where key = 'a' ; limit 1"} {
+		h.w1Emit(q, "fixed", "")
+	}
+	for i := 0; i < nTyped; i++ {
+		w.g.style, w.g.rcase, w.g.rspace = i%3, r.chance(1, 3), r.chance(1, 3)
+		ls, kind := w.stmt(true)
+		h.w1Emit(w.g.join(ls), kind, "typed")
+	}
+	for i := 0; i < nUntyped; i++ {
+		w.g.style, w.g.rcase, w.g.rspace = i%3, false, r.chance(1, 3)
+		ls, kind := w.stmt(false)
+		h.w1Emit(w.g.join(ls), kind, "untyped")
+	}
+	for i := 0; i < nBad; i++ {
+		w.g.style, w.g.rcase, w.g.rspace = i%3, false, r.chance(1, 4)
+		ls, kind := w.stmt(r.chance(2, 3))
+		ls = w.corrupt(ls)
+		if r.chance(1, 4) {
+			ls = w.corrupt(ls)
+		}
+		h.w1Emit(w.g.join(ls), kind, "corrupted")
+	}
 }
